@@ -110,6 +110,32 @@ theorem C03_no_index_error (xs : List Sentence)
     obtain ⟨a, b, c⟩ := h s hsx hm
     exact ⟨a, Int.le_trans b hq', c⟩
 
+/-- what is delivered per input line, filtered by an arbitrary per-line choice (`keeps`): a sublist of
+what is delivered -/
+theorem filtered_sublist (outs : List StepOut) :
+    ∀ keeps : List (Sentence → Bool),
+      (List.zipWith (fun (o : StepOut) p => o.delivered.filter p) outs keeps).flatten.Sublist
+        (outs.map (·.delivered)).flatten := by
+  induction outs with
+  | nil => intro keeps; simp
+  | cons o outs ih =>
+    intro keeps
+    cases keeps with
+    | nil => simp
+    | cons p ps =>
+      simp only [List.zipWith_cons_cons, List.flatten_cons, List.map_cons]
+      exact List.Sublist.append List.filter_sublist (ih ps)
+
+/-- **A bounded queue loses messages but delivers nothing else.** The reassembly state of
+`NMEAQueue.put_line` (fragment buffer, pending wrapper) does not depend on whether the finished
+sentence found room in the queue (`queue.Full` is raised after the slot was cleared and the wrapper
+taken): whatever subset of the deliveries is lost, line by line, the sentences that do come out are,
+in order, among those the unbounded queue delivers for the same lines. -/
+theorem C03_bounded_queue (k : AsmConsts) (st : AsmState) (lines : List Py.Bytes) (keeps : List (Sentence → Bool)) :
+    (List.zipWith (fun (o : StepOut) p => o.delivered.filter p) (runLoop (queueStep k) st lines).2 keeps).flatten.Sublist
+      (((runLoop (queueStep k) st lines).2).map (·.delivered)).flatten :=
+  filtered_sublist _ keeps
+
 /-- non-vacuity: two interleaved two-part messages in different slots, fragments out of order, and a
 single sentence in between -/
 example :
@@ -131,4 +157,5 @@ example :
 #print axioms C03_assembled
 #print axioms C03_incomplete
 #print axioms C03_no_index_error
+#print axioms C03_bounded_queue
 end C03
